@@ -405,6 +405,8 @@ def run(ctx):
     cov["b2_behaviours_generated"] = nbeh
     cov["b2_executions"] = {n: s.get("executions", 0) for n, s in b2.items()}
     cov["crashes"] = b1.get("crashes", 0) + sum(s.get("crashes", 0) for s in b2.values())
+    cov["witnesses"] = {n: ("process ended: %s" % json.dumps(d.get("crash")) if d.get("crash") else "did not end the process (finding no longer reproduces)")
+                        for n, d in wit.get("subjects", {}).items()}
     cov["evaluations"] = b1.get("events", 0) + sum(s.get("events", 0) + s.get("executions", 0) for s in b2.values())
     subjects = {}
     nontrivial = 0
@@ -427,7 +429,8 @@ def run(ctx):
         nontrivial += nb + (d.get("nontrivial_runs") or 0)
         ops = d.get("ops") or {}
         mutating = sum(v for k, v in ops.items() if k not in ("find", "bsearch", "maintenance", "reserve", "shrink"))
-        if (d.get("events") or 0) == 0 or (mutating == 0 and not name.startswith("zo:")):
+        if (d.get("events") or 0) == 0 or (mutating == 0 and not name.startswith("zo:")) or ((d.get("runs") or 0) > 0 and (d.get("panics") or 0) >= (d.get("runs") or 0)):
+            # nothing recorded, no mutating call, or every run ended in a panic (cachevec_zst while C10-KF11 is open)
             vacuous.append(name)
     cov["subjects"] = subjects
     cov["distinct_nontrivial"] = nontrivial
@@ -450,6 +453,19 @@ def run(ctx):
         "distinct_nontrivial = (subject, history) pairs executed in which at least one step changes the expected content (histories that only pop/clear "
         "an empty container are executed but not counted) + (subject, B1 run) pairs in which the container held an element at some point; pairs are "
         "distinct by construction (each history is generated once, each run has its own derived seed).  "
+        "Coverage round: every subject also shows its content through every twin reader it offers (as_mut_slice, iter_mut, IntoIterator, Index "
+        "by usize/u32, get_mut, get_unchecked(_mut), as_ptr/as_mut_ptr, get_by_id) and its length / capacity through their twins (len_usize, is_empty, "
+        "is_full, stats(), performance_stats()); B1 additionally drives push_panic / unchecked_push(_copy) / push() / pop() aliases, writes through "
+        "get_mut / as_mut_slice / iter_mut / index_mut, resize_with, with_size, ensure_capacity, copy_from_slice_fast, extend_from_slice_copy, push_n_copy "
+        "(0,1,3,15,16,17,33 copies: both sides of the 16-element strategy switch), compare_range_simd, MmapVec::open (sync + reopen; a file opened read-only), "
+        "a second BumpVec in the same allocator, count_prefix, range, BitPacked extend, SortableStrVec::from_iter; configurations: capacities 0/1/2/3 for every "
+        "vector, MmapVec initial capacity 0..3 x growth 1.0/1.1/1.25/1.5/1.618/2.0 and every preset (large_dataset, performance/memory_optimized, realtime, "
+        "persistent_cache, read_only, builder flags, with_capacity_simd), BitPacked / AdvancedString presets, fixed queues N = 1..8, 16 with the head rotated "
+        "to every residue and filled across the wrap, AutoGrow initial capacity 0..8; input classes: one-byte elements up to 170 (64-byte fast_fill paths of "
+        "resize / fill_range_fast), u64 vectors beyond 8 and 16 elements (SIMD / prefetch thresholds), zero-sized elements (FastVec, ValVec32, "
+        "CacheAlignedVec, both queues), strings of 2^20-1 .. 2^20+5 and 2^24-1 / 2^24+3 bytes (20- and 24-bit length fields; shown as digests), 254..257 "
+        "bytes (8-bit length of FixedLenStrVec), strings sharing 8/16/32-byte stems, batches of 33..700 strings (radix buckets from 32, blocked binary "
+        "search from 513, 256-bit rank/select blocks of ZoSortedStrVec).  "
         "exhaustive refers to the B2 history spaces." % (("4", "5", "7", "10", "4") if th else ("3", "4", "5", "8", "2")))
     for f in (fv, fq, fs):
         if os.path.exists(f):
@@ -471,6 +487,12 @@ def run(ctx):
         "the content of a queue is observed through its Debug formatter (the only non-destructive full view), front(), back(), len(), capacity()",
         "B2 pre-filter: differing histories beyond the per-kind cap are counted (mismatch_kinds), not judged; kinds with no judged history are "
         "listed in mismatch_kinds_not_judged",
+        "C10-KF8 (process abort in FastVec::ensure_capacity / copy_from_slice_fast) cannot be modelled: the random drivers stay out of its trigger "
+        "region (requests below the length; sources shorter than the vector) and the recorded witness is executed in a child of its own on every run",
+        "API audit: statistics / memory reports (stats, memory_info, memory_usage, compression_ratio, memory_savings_vs_vec_string, utilization ...), "
+        "hardware / type descriptions (has_hardware_acceleration, offset_type_info, numa_node), the NUMA pool and BumpAllocator allocation API "
+        "(numa_alloc_aligned, alloc_bytes, alloc_slice ... - allocator properties, not the sequence a vector holds) and the unimplemented stubs "
+        "ZoSortedStrVec::from_mmap / save_to_file are not bound",
         "src/containers/specialized/circular_queue_ultrafast.rs is not bound: it is not part of the crate's module tree and does not compile "
         "(unstable core_intrinsics, ZiporaError::memory_error does not exist); by reading, its grow_buffer never relocates the wrapped part",
         "every subject runs in its own child process; a crash (signal / non-zero exit / timeout) is logged as a `crash` event, which the contracts reject",
